@@ -25,6 +25,10 @@ elif len(sys.argv) > 4 and sys.argv[4] == "defaults":
     steer = """
 For this round: at least one of your changes must concern a DEFAULT or an OMITTED / OPTIONAL ARGUMENT - the default value of a function parameter or configuration field, what happens when an optional argument is left out or passed as None (random numbers, cloud callback, store / plot hooks, decay lengths, output file, table version, month, thresholds), a mutable default, a keyword that is silently ignored or silently defaulted, `*args / **kwargs` that swallow or forward something they should not - visible only when the argument is omitted (or only when it is given), not in the most common call. And at least one must be a pair of COOPERATING EDITS IN TWO DIFFERENT FILES, each of which is harmless (bit-identical behaviour) when applied alone and which break the property only together, in a specific situation.
 """
+elif len(sys.argv) > 4 and sys.argv[4] == "boundary":
+    steer = """
+For this round: at least one of your changes must show ONLY AT AN EXACT BOUNDARY OR DEGENERATE VALUE of something the property quantifies over - a parameter exactly 0 (or exactly at the minimum / maximum of its legal range), two values exactly equal (ties, a band of zero or one-ulp width, coincident points), a batch of exactly one event or exactly one partition, an event exactly on a table node / grid edge / range limit, a value with many significant digits, a negative zero, an exactly representable versus a not exactly representable number - and be bit-identical to the original everywhere else. And at least one must concern the LIFE CYCLE OF AN OBJECT: a stage / geometry / configuration / table / grid object that is copied, deep-copied, pickled and restored, re-used after a call that raised, re-configured after construction, sliced or derived from another object, or kept alive while another one is created - correct for a freshly constructed object used once.
+"""
 elif len(sys.argv) > 4 and sys.argv[4] == "interaction":
     steer = """
 For this round: at least one of your changes must live in an INTERACTION rather than in a single formula - between two calls on one object, between two objects or two stages of the pipeline, between the library and its environment (files, the process, configuration objects that outlive a call, the dtype / memory layout / length of the arrays passed in), or between two edits that are each harmless alone. And at least one must sit at a code site that is NOT the most obvious function for this property: a helper, decorator or utility it depends on, the wiring in compute.py or the command line, a constructor, or a data-handling routine.
